@@ -11,7 +11,7 @@ Record case := mk_case {
 Definition c_args (c : case) : args := {| a_all := c_all c; a_force := c_force c; a_base := c_base c |}.
 
 Definition mismatch (c : case) : bool :=
-  run_mismatch (c_args c) (c_world c) (c_gens c) (c_fmt c) (c_before c) (c_after c) (c_trace c) (c_out c).
+  run_mismatch_either (c_args c) (c_world c) (c_gens c) (c_fmt c) (c_before c) (c_after c) (c_trace c) (c_out c).
 
 (* ---- the property, on the observation only ---- *)
 
